@@ -52,6 +52,17 @@ def vscale(a, k):
     return tuple(x * k for x in a)
 
 
+def reduced_dimensionless(rng, n):
+    """A product/quotient of quantities of DERIVED dimensions whose dimension is dimensionless only after reduction to
+    base dimensions (e.g. energy/(force*length)), with exact value n."""
+    from symplyphysics import Quantity  # pylint: disable=import-outside-toplevel
+    u = units
+    num, den = rng.choice([(u.joule, u.newton * u.meter), (u.watt * u.second, u.joule), (u.pascal * u.meter**2, u.newton),
+        (u.volt * u.coulomb, u.joule), (u.newton * u.meter, u.watt * u.second)])
+    k = rng.choice([1, 2, 5])
+    return Quantity(n * k * num) / Quantity(k * den)
+
+
 class Gen:
     def __init__(self, rng, p_bad=0.0):
         self.rng = rng
@@ -107,6 +118,9 @@ class Gen:
             if rng.random() < self.p_bad:
                 return Pow(self.expr(vec, depth - 1), self.expr(self.other_vec(ZERO), 0))
             n = rng.choice([2, 3, -1, -2, 2, Rational(1, 2)])
+            if n != Rational(1, 2) and rng.random() < 0.25:
+                # the exponent is a quantity expression that is dimensionless only after reduction to base dimensions
+                return Pow(self.expr(vscale(vec, Fraction(1, n)), depth - 1), reduced_dimensionless(rng, n))
             if n == Rational(1, 2):
                 from symplyphysics import Quantity  # pylint: disable=import-outside-toplevel
                 s = rng.choice([1, 2, 3, Rational(1, 2), 5])
@@ -124,6 +138,8 @@ class Gen:
         if all(x == 0 for x in vec) and not self.opaque_used:
             self.opaque_used = True
             f = rng.choice([sin, cos, exp, log])
+            if rng.random() < 0.3 and not rng.random() < self.p_bad:
+                return f(reduced_dimensionless(rng, rng.choice([1, 2, 3])))
             arg = self.expr(self.other_vec(ZERO) if rng.random() < self.p_bad else ZERO, depth - 1)
             return f(arg)
         return self.leaf(vec)
@@ -198,7 +214,7 @@ def boundary(rng):
     a, b, c = Quantity(1 * m), Quantity(-1 * m), Quantity(1 * s)
     z, zs = Quantity(0), Quantity(0 * s)
     inf = Quantity(oo, dimension=units.length)
-    k = rng.randrange(18)
+    k = rng.randrange(20)
     cases = [
         lambda: Add(a, b, c, evaluate=False),                 # cancelling prefix, then another dimension: must refuse
         lambda: Add(c, a, b, evaluate=False),
@@ -217,6 +233,8 @@ def boundary(rng):
         lambda: Abs(Quantity(-5 * units.volt)),
         lambda: 2**Quantity(0 * m),
         lambda: sympy.zoo,
+        lambda: Quantity(9 * m)**reduced_dimensionless(rng, 2),
+        lambda: exp(reduced_dimensionless(rng, 1)) * units.second,
         lambda: Quantity(sympy.zoo) * units.meter,
     ]
     return cases[k]()
